@@ -6,7 +6,7 @@ FUN = ['FIX8::Session::process', 'Session::enforce', 'Session::sequence_check', 
        'Session::handle_logon (C20_logon)', 'Session::do_state_change', 'Session::stop', 'catch clauses of Session::process', 'fast_atoi<unsigned>']
 
 def run(ctx):
-    kf = known_findings('C20'); defs = kf_defines(kf)
+    kf, defs = sessin.kf_defs('C20')
     info = sessin.build(ctx)
     ctx.assumptions += sessin.ASSUME + ['counterparty model: replays application messages as PossDup resends (OrigSendingTime <= SendingTime), runs of administrative messages as one GapFill, answers before continuing',
                                         'CompIDs match; decoding succeeds; the session is active']
@@ -16,13 +16,13 @@ def run(ctx):
         ctx.add(Harness('C20_gap_k%d_l%d' % (k, loss), VERIF + '/harness/C20_gap.c', defines=defs + ['K=%d' % k, 'MAXLOSS=%d' % loss, 'VF_MAXCOPY=40', 'VF_OUTMAX=%d' % (k + 1)], unwind=12,
                         unwindset=sessin.US,
                         timeout=900 if ctx.tier == 'quick' else 2400, functions=FUN, stubs=sessin.STUBS,
-                        bounds='%d process() steps from a continuous session in sync at an arbitrary number n in 1..999999; at most %d own messages lost before each new message; '
+                        bounds='%d process() steps from a continuous session in sync at an arbitrary number n in 1..2^31-257 (FIX SeqNum domain); at most %d own messages lost before each new message; '
                                'lost and new messages are application or administrative at the generator\'s choice' % (k, loss),
                         desc='k-step recovery against the conformant counterparty generator'))
     for role, rn in ((0, 'acceptor'), (1, 'initiator')):
         ctx.add(Harness('C20_logon_%s' % rn, VERIF + '/harness/C20_logon.c', defines=defs + ['ROLE=%d' % role, 'VF_MAXCOPY=40'], unwind=12,
                         unwindset=sessin.US, timeout=900, functions=FUN, stubs=sessin.STUBS + ['Timer::schedule := recorded'],
-                        bounds='one Logon with matching CompIDs numbered expected+g, g in 0..1000, expected in 1..999999, %s role' % rn, desc='reconnect Logon above the expected number'))
+                        bounds='one Logon with matching CompIDs numbered expected+g <= 2^31-1, expected >= 1, %s role' % rn, desc='reconnect Logon above the expected number'))
     ctx.solve(jobs=4)
     ctx.handle_failures(replay, kf)
     announce_known(ctx, kf, replay)
